@@ -91,7 +91,7 @@ def storeRec (getQ : List EvId) (items : List Int) : ResRec :=
 
 /-! ## the kernel side of a configuration: events, process records, store, cells -/
 
-def PortK (s : KS) : PPhase → Prop
+def PortEv (s : KS) : PPhase → Prop
   | .init q => q.ev = 1 ∧ EvIs s 1 (.init 0) [.resume 0] (some (.ok .none)) ∧
       s.proc? 0 = some { st := .portStart, target := some 1 }
   | .W g => EvIs s g (.get 0) [.trigPut 0, .resume 0] none ∧
@@ -101,7 +101,7 @@ def PortK (s : KS) : PPhase → Prop
   | .T t id q => q.ev = t ∧ EvIs s t .timeout [.resume 0] (some (.ok .none)) ∧
       s.proc? 0 = some { st := .portTx id, target := some t }
 
-def SrcK (s : KS) : SPhase → Prop
+def SrcEv (s : KS) : SPhase → Prop
   | .init q arr => q.ev = 3 ∧ EvIs s 3 (.init 2) [.resume 2] (some (.ok .none)) ∧
       s.proc? 2 = some { st := .src none arr, target := some 3 }
   | .wait id rest q => EvIs s q.ev .timeout [.resume 2] (some (.ok .none)) ∧
@@ -115,8 +115,8 @@ structure KInv (s : KS) (a : A) : Prop where
   ag : s.agenda.Perm a.entries
   rsz : 0 < s.resources.size
   res : s.res 0 = storeRec a.port.getQ a.items
-  port : PortK s a.port
-  src : SrcK s a.src
+  port : PortEv s a.port
+  src : SrcEv s a.src
   pend : ∀ u, a.pend = some u → EvIs s u.ev (.put 0) [.trigGet 0] (some (.ok .none))
   c0 : lookup s.shared 0 = .int a.bytes
   c1 : lookup s.shared 1 = .int a.recv
@@ -133,15 +133,15 @@ def PPhase.idle : PPhase → Bool
   | .W _ => true
   | _ => false
 
-def PortA (a : A) (now : ℚ) : PPhase → Prop
-  | .init q => q.time = now ∧ q.prio = URGENT ∧ a.items = [] ∧ a.pend = none ∧ a.last = none
+def PortA (items : List Int) (pend : Option (QEntry ℚ)) (last : Option ℚ) (now : ℚ) : PPhase → Prop
+  | .init q => q.time = now ∧ q.prio = URGENT ∧ items = [] ∧ pend = none ∧ last = none
   | .W _ => True
   | .H _ _ q => q.time = now ∧ q.prio = NORMAL
   | .T _ _ q => q.prio = NORMAL
 
-def SrcA (a : A) (now : ℚ) : SPhase → Prop
-  | .init q arr => q.time = now ∧ q.prio = URGENT ∧ GapsOK arr
-  | .wait _ rest q => q.prio = NORMAL ∧ GapsOK rest ∧ ∀ u, a.pend = some u → u.eid < q.eid
+def SrcA (pend : Option (QEntry ℚ)) (now : ℚ) : SPhase → Prop
+  | .init q arr => q.time = now ∧ q.prio = URGENT ∧ GapsOK arr ∧ pend = none
+  | .wait _ rest q => q.prio = NORMAL ∧ GapsOK rest ∧ ∀ u, pend = some u → u.eid < q.eid
   | .ending q => q.time = now ∧ q.prio = NORMAL
   | .done => True
 
@@ -192,8 +192,8 @@ def SPhase.ids : SPhase → List Int
 
 /-- what holds of a configuration at instant `now` when `outs` have departed so far -/
 structure AInv (arrivals : List (ℚ × Int)) (a : A) (now : ℚ) (outs : List (Int × ℚ)) : Prop where
-  port : PortA a now a.port
-  src : SrcA a now a.src
+  port : PortA a.items a.pend a.last now a.port
+  src : SrcA a.pend now a.src
   pend : ∀ u, a.pend = some u → u.time = now ∧ u.prio = NORMAL
   /-- a waiting packet beside an idle server means the `StorePut` event that will hand it over is pending -/
   idle : a.port.idle = true → a.items ≠ [] → a.pend.isSome = true
